@@ -21,7 +21,11 @@ image, have w > 0 and are not masked; NaN iff the box contains no image pixel.
 Metamorphic relations (bit-exact unless stated): many positions == one at a
 time; list of apertures == separately; linear in data (rtol 1e-12); blind to
 the values stored in masked / zero-weight pixels; sky == to_pixel(wcs);
-NDData / Quantity == bare arrays (+ units carried); table centres == positions.
+NDData / Quantity == bare arrays (+ units carried); table centres == positions;
+history: an aperture object that was used with other parameters / positions and
+then had every public parameter assigned one at a time (both orders, used after
+every assignment) == a fresh aperture with the same current parameters, after
+every single assignment (the weights w are those of the aperture as it is now).
 """
 import math
 
@@ -36,13 +40,18 @@ RULE = ('full Cartesian product of image shape x aperture spec x method x positi
         'alphabet x data variant x error form, every case executed on the real code; one evaluation = one '
         '(configuration, position) comparison with the direct pixel loop (metamorphic call-form relations are counted '
         'per position as well; on the call-form sub-product of masks the error axis has a third element, a map with '
-        'NaN/+inf/-inf at three fixed pixels, judged by the same direct loop); a case is non-trivial when at least one unmasked in-image pixel has positive aperture '
+        'NaN/+inf/-inf at three fixed pixels, judged by the same direct loop; and on finite data x masks {None, centre pixel} '
+        '(thorough: all three) the re-assignment history relation: same class 1.5x larger, rotated by 0.9 rad, at the reversed '
+        'position list, used, then every parameter of the unit\'s aperture assigned one at a time in both orders '
+        '(parameters then positions / positions then parameters), compared after every assignment with a fresh aperture); a case is non-trivial when at least one unmasked in-image pixel has positive aperture '
         'weight (measured from the registered weights); cases are distinct by construction (distinct product indices)')
 ASSUMPTIONS = ['the per-pixel weights returned by Aperture.to_mask() and its bbox are correct (decided by C01); this check '
                'owns where they land in the image and which pixels are summed',
                'images are at most 5x5 (6x6 thorough): registration errors that need a larger frame are out of the bound',
                'sky apertures are exercised with one distortion-free TAN WCS only',
-               'masks are boolean arrays (the quantifier of the property); list / integer masks are not exercised']
+               'masks are boolean arrays (the quantifier of the property); list / integer masks are not exercised',
+               'histories of an aperture object: one used state followed by single assignments of every public parameter '
+               '(float values; theta as float radians); the representation of theta and longer histories belong to C01 / C09']
 
 METHODS = [('exact', 5), ('center', 5), ('subpixel', 5)]
 VARIANTS = ['finite', 'nan', 'inf']
@@ -159,7 +168,8 @@ def _error_fill(shape, fill):
 GROUP = {'do_photometry': 'main', 'area_overlap': 'main', 'list-call': 'forms', 'scalar': 'scalar', 'scalar-area': 'scalar',
          'get_values': 'mask-methods', 'multiply': 'mask-methods', 'mask-methods': 'mask-methods', 'blind': 'blind',
          'linear': 'linear', 'table': 'table', 'aperture_photometry': 'table', 'aperture-list': 'table', 'nddata': 'table',
-         'nddata-unit': 'table', 'quantity': 'table', 'sky': 'table', 'error-nonfinite': 'error-nonfinite'}
+         'nddata-unit': 'table', 'quantity': 'table', 'sky': 'table', 'error-nonfinite': 'error-nonfinite',
+         'reassign': 'reassign'}
 
 
 class Ctx:
@@ -416,6 +426,10 @@ def run_forms(acc, ctx, tier, only_case=None):
             if variant != 'finite':
                 continue
 
+            # the aperture "as it currently is": an object that was used with other parameters / positions and then re-assigned
+            if want('reassign') and (tier == 'thorough' or bits is None or bits == form_masks(ctx)[1]):
+                run_reassign(acc, ctx, bits, mask, multi, marea, aperture_photometry)
+
             # linear in data: P(a d1 + b d2) = a P(d1) + b P(d2), rtol 1e-12 on sum w (|a d1| + |b d2|)
             if want('linear'):
                 a_, b_ = 2.5, -1.75
@@ -448,11 +462,69 @@ def run_forms(acc, ctx, tier, only_case=None):
                     run_table_forms(acc, ctx, bits, variant, multi, mask, u, NDData, StdDevUncertainty, aperture_photometry)
 
 
-def check_table(acc, ctx, bits, variant, with_err, form, tbl, suffix, ref, pos, unit=None):
+def run_reassign(acc, ctx, bits, mask, multi, marea, aperture_photometry):
+    """History relation (bit-exact): an aperture object of the same class that has been USED (do_photometry and
+    area_overlap, which fill whatever the object memoises) with other parameters (1.5x larger, rotated by 0.9 rad) at
+    other positions (the list reversed) and whose public parameters are then assigned ONE AT A TIME (both orders:
+    shape parameters then positions, positions then shape parameters; used again after every assignment) must, after
+    every single assignment, give the sums of a fresh aperture with the same current parameters; at the end (== the
+    aperture of this unit) also the same area_overlap and aperture_photometry table."""
+    variant = 'finite'
+    data, err = ctx.img[variant], ctx.img['err']
+    kind = ctx.spec[0]
+    npos = len(ctx.pos)
+    target = R.param_items(ctx.spec)
+    for positions_first in (False, True):
+        cur = R.param_items(R.before_spec(ctx.spec))
+        cur_pos = ctx.pos[::-1]
+        steps = ([('positions', ctx.pos)] + target) if positions_first else (target + [('positions', ctx.pos)])
+        case = dict(ctx.case(0, bits, variant, True, 'reassign'), positions_first=positions_first)
+        stale = False
+        try:
+            ap = R.aperture_from_items(kind, cur, cur_pos)
+            ap.do_photometry(data, error=err, mask=mask, **ctx.kw)
+            ap.area_overlap(data, mask=mask, **ctx.kw)
+            for name, value in steps:
+                if stale:
+                    break           # reported at the step where it arose
+                setattr(ap, name, value)
+                if name == 'positions':
+                    cur_pos = value
+                else:
+                    cur = [(n, value if n == name else v) for n, v in cur]
+                got = ap.do_photometry(data, error=err, mask=mask, **ctx.kw)
+                try:
+                    fresh = R.aperture_from_items(kind, cur, cur_pos)
+                except ValueError:
+                    continue        # the intermediate parameter set is not a valid aperture (not the case for the alphabet)
+                want = fresh.do_photometry(data, error=err, mask=mask, **ctx.kw)
+                acc.evaluations += npos
+                acc.nontrivial += npos
+                for nm, g, w in (('sum', got[0], want[0]), ('sum_err', got[1], want[1])):
+                    if not bitsame(g, w):
+                        k = int(np.flatnonzero(~((g == w) | (np.isnan(g) & np.isnan(w))))[0])
+                        acc.violation('reassigned-aperture', f'do_photometry:{kind}:after-{name}', dict(case, pos_index=k, position=list(cur_pos[k])),
+                                      float(g[k]), float(w[k]), f'{nm} of a fresh aperture with the same parameters {cur}; assigned so far: '
+                                      f'{[n for n, _ in steps[:steps.index((name, value)) + 1]]}')
+                        stale = True
+                        break
+            if stale:
+                continue            # already reported at the step where it arose
+            # final state == the aperture of this unit (the last step compared do_photometry with it)
+            ga = ap.area_overlap(data, mask=mask, **ctx.kw)
+            if not bitsame(ga, marea):
+                acc.violation('reassigned-aperture', f'area_overlap:{kind}:final', case, np.asarray(ga).tolist()[:4], np.asarray(marea).tolist()[:4])
+            tbl = aperture_photometry(data, ap, error=err, mask=mask, **ctx.kw)
+            check_table(acc, ctx, bits, variant, True, 'aperture_photometry:reassigned', tbl, '', multi, ctx.pos, group='reassign')
+        except Exception as exc:  # noqa: BLE001
+            acc.violation('raises', f'reassign:{type(exc).__name__}', case, repr(exc), 'a result for every position')
+
+
+def check_table(acc, ctx, bits, variant, with_err, form, tbl, suffix, ref, pos, unit=None, group='table'):
     npos = len(pos)
     acc.evaluations += npos
     acc.nontrivial += npos
-    case = ctx.case(0, bits, variant, with_err, 'table')
+    case = ctx.case(0, bits, variant, with_err, group)
     cols = tbl.colnames
     sk, ek = 'aperture_sum' + suffix, 'aperture_sum_err' + suffix
     if sk not in cols or (ek in cols) != bool(with_err):
@@ -469,7 +541,7 @@ def check_table(acc, ctx, bits, variant, with_err, form, tbl, suffix, ref, pos, 
         if not bitsame(vals, np.asarray(getattr(want, 'value', want))):
             bad = ~((vals == np.asarray(want)) | (np.isnan(vals) & np.isnan(np.asarray(want, float))))
             k = int(np.flatnonzero(bad)[0])
-            acc.violation('call-form-equivalence', ctx.site(form, k, bits, variant), ctx.case(k, bits, variant, with_err, 'table'),
+            acc.violation('call-form-equivalence', ctx.site(form, k, bits, variant), ctx.case(k, bits, variant, with_err, group),
                           float(vals[k]), float(np.asarray(want)[k]), f'column {name} vs do_photometry')
     xc = np.asarray(getattr(tbl['xcenter'], 'value', tbl['xcenter']), dtype=float)
     yc = np.asarray(getattr(tbl['ycenter'], 'value', tbl['ycenter']), dtype=float)
@@ -587,5 +659,8 @@ def describe(tier, seed):
                                    'masked pixel (list call) resp. every not-summed pixel (scalar apertures)'],
                          'call_forms': 'do_photometry/area_overlap (full product); scalar one-at-a-time, get_values/multiply, '
                                        'blindness, non-finite error map, linearity, aperture_photometry single on masks {None, centre pixel, all-but-centre}; '
+                                       're-assignment history (used aperture with other parameters -> every parameter and the positions assigned one '
+                                       'at a time, 2 orders, judged after every step against a fresh aperture; finally area_overlap and the '
+                                       'aperture_photometry table) on finite data x masks {None, centre pixel} (thorough: all three); '
                                        'list of 2 apertures, NDData (+unit), Quantity, Sky+TAN WCS on masks {None, centre pixel} (thorough: all three)'},
             'bound': {'units': len(plan(tier, seed)), 'positions_per_unit': 64}}
